@@ -165,14 +165,17 @@ theorem C08_T83_limit_left (on : Row → Row → Bool) (nr : Row) (n : Nat) (L R
     (leftJoin on (· ++ ·) nr (L.take n) R).take n = (leftJoin on (· ++ ·) nr L R).take n :=
   limit_left_join on _ nr n L R
 
-/-- `check_use_limit` never looks at the join of the second table (the Join item follows its table) … -/
-theorem C08_useLimit_two_tables (k : JoinKind) (h g l : Bool) (hc : ((!h) || ((!g) && l)) = true) :
-    checkUseLimit h g l [.table true, .table true, .join k] = true := by
-  cases k <;> simp [checkUseLimit, hc, useLimitLoop]
+/-- `check_use_limit` never looks at the join of the second table (the Join item follows its table): for an ungrouped
+two-table query the pushdown is allowed whatever the join kind -/
+theorem C08_useLimit_two_tables (k : JoinKind) (l : Bool) :
+    checkUseLimit false false l [.table true, .table true, .join k] = true := by
+  cases k <;> simp [checkUseLimit, useLimitLoop]
 
-/-- … and the precedence slip lets GROUP BY through whenever there is no HAVING -/
-theorem C08_useLimit_group_by : checkUseLimit false true true [.table true, .table true, .join .left] = true ∧
-    checkUseLimitIntended false true true [.table true, .table true, .join .left] = false := by decide
+/-- regression (repo commit 1052add; the precedence slip `having is None or (group_by is None and limit is not None)` let
+GROUP BY through): a grouped or HAVING query never gets the pushdown -/
+theorem C08_useLimit_group_by (h l : Bool) (seq : List SeqItem) :
+    checkUseLimit h true l seq = false ∧ checkUseLimit true false l seq = false := by
+  cases h <;> simp [checkUseLimit]
 
 /-- the third table is checked against the join of the second -/
 theorem C08_useLimit_third :
@@ -188,7 +191,8 @@ theorem C08_witness_limit_inner : execPlan (plan limQ) limDB ≠ evalQuery limQ 
 
 theorem C08_plan_limit_inner : (plan limQ).limit0 = some 1 := by decide
 
-/-- GROUP BY + LIMIT 2 even over a LEFT join: two groups exist, the limited fetch sees one -/
+/-- why 1052add was needed (the planner no longer does this): GROUP BY + LIMIT 2 even over a LEFT join — two groups
+exist, a limited fetch sees one -/
 def grpL : Table := [[((0, 0), .int 1)], [((0, 0), .int 1)], [((0, 0), .int 2)]]
 
 theorem C08_witness_limit_group :
@@ -240,7 +244,8 @@ satisfies the decidable side condition `planSound q = nullSafe q && limitSound q
 * `nullSafe`: the fetch of an operand that the join pads with NULLs (right operand of LEFT/FULL, left operand of
   RIGHT/FULL) receives only NULL-rejecting pushed filters (`col <op> const`, not `col IS NULL`);
 * `limitSound`: LIMIT is not pushed into the first fetch, or the join is a LEFT join, WHERE is absent or a conjunction
-  of tests on the first table only (so it is evaluated completely inside that fetch) and there is no GROUP BY / HAVING.
+  of tests on the first table only (so it is evaluated completely inside that fetch).  (A query with GROUP BY / HAVING
+  never gets the pushdown since repo commit 1052add: `C08_useLimit_group_by`.)
 
 Each way of violating the condition is inhabited by a witness on which the plan is wrong:
 `C08_witness_isnull` (¬nullSafe), `C08_witness_limit_inner` (LIMIT, not a LEFT join), `C08_witness_limit_where`
@@ -256,8 +261,8 @@ theorem C08_partial_model_inner (q : Q2) (db : DB) (hk : q.kind = .inner) (hl : 
   simp [planSound, nullSafe, limitSound, plan, hk, hl]
 
 /-- corollary: LEFT join with LIMIT and a WHERE on the first table only -/
-theorem C08_partial_model_left_limit (q : Q2) (db : DB) (hk : q.kind = .left) (hw : whereLeftOnly q.w = true)
-    (hg : q.groupBy = false) (hh : q.having = false) : execPlan (plan q) db = evalQuery q db := by
+theorem C08_partial_model_left_limit (q : Q2) (db : DB) (hk : q.kind = .left) (hw : whereLeftOnly q.w = true) :
+    execPlan (plan q) db = evalQuery q db := by
   apply plan2_sound
   have h1 : pushedNullSafe 1 q.w = true := by
     cases hq : q.w with
@@ -269,7 +274,7 @@ theorem C08_partial_model_left_limit (q : Q2) (db : DB) (hk : q.kind = .left) (h
       intro x hx
       have := h2 x hx.1
       simp [this] at hx
-  simp [planSound, nullSafe, limitSound, hk, hw, hg, hh, h1, JoinKind.isLeft]
+  simp [planSound, nullSafe, limitSound, hk, hw, h1, JoinKind.isLeft]
 
 /-- non-vacuity / coverage of `planSound` (by evaluation): LEFT + WHERE on both tables without LIMIT, LEFT + LIMIT +
 WHERE on the first table, RIGHT and FULL with NULL-rejecting filters, inner with NOT / OR -/
